@@ -41,6 +41,7 @@ Evaluable(x, what, h) ==
       [] what = "close" -> x.head + 1 = h
       [] what = "gov"   -> Gov /\ x.pc = "gov"
       [] what = "closedown" -> x.pc = "down" /\ x.head + 1 = h
+      [] what = "up"    -> x.pc = "down" /\ x.head + 1 = h /\ h = DownUntil
       [] OTHER -> FALSE
 
 (* one SyncAppWithDB call: one transaction per closed block that is not applied yet; the memory of
@@ -61,6 +62,7 @@ SpecStep(x, what) ==
       [] what = "close" -> DoClose([x EXCEPT !.pc = "post"])
       [] what = "gov"   -> DoGovTx(x)
       [] what = "closedown" -> DoCloseDown(x)
+      [] what = "up"    -> DoUp(x)
 
 IsSuffix(a, b) == Len(a) <= Len(b) /\ a = SubSeq(b, Len(b) - Len(a) + 1, Len(b))
 
@@ -68,6 +70,7 @@ IsSuffix(a, b) == Len(a) <= Len(b) /\ a = SubSeq(b, Len(b) - Len(a) + 1, Len(b))
 MidAllowed(pre, e, what, mid) ==
     CASE what = "sync" -> mid.db \in SyncDbs(pre)
       [] what = "gov"  -> mid.db = pre.db \/ mid.db = e.db
+      [] what = "up"   -> mid.db = pre.db
       [] what = "post" -> mid.db = [pre.db EXCEPT !.outbox = mid.db.outbox] /\ IsSuffix(mid.db.outbox, pre.db.outbox)
       [] OTHER -> FALSE
 
